@@ -76,13 +76,21 @@ CHECKS = {
               "operation circuit built by the generic code over F_5 (and F_7) is extracted, and TLC searches EVERY assignment "
               "of the assigned advice cells row by row (gates and copies prune); the invariant demands that every satisfying "
               "assignment exposes outputs = Def(inputs) with inputs in Dom, and the inputs reached must be the whole domain "
-              "(26 operation instances on quick, all of them over both fields plus sgn0 / to_le_bits on thorough). "
+              "(36 operation instances on quick, all of them over both fields plus sgn0 / to_le_bits over F_5 on thorough). "
               "Variable-length vectors (VectorGadget over the toy field): NativeOps defines the limits, padding flags, trim, resize and "
               "equality of AssignedVector<M, A> for every (length, alignment) layout; the driver assigns vectors of every payload length "
-              "0..M in shapes (8,2) and (12,4), exposes the buffer, limits and flags, and the trace spec demands them under the same tamper plans."),
+              "0..M in shapes (8,2) and (12,4), exposes the buffer, limits and flags, and the trace spec demands them under the same tamper plans. "
+              "Operand sources: add / sub / mul (with and without a multiplying constant) with an operand taken from the fixed-constant cell of "
+              "value 0, 1, 5, p-1 (arith_src), also in the exhaustive GadgetSat list. Key-value maps: MerkleMap.tla (sparse Merkle tree, "
+              "parametric in the hash; get = Lookup proved by Climb(path) = Root, insert = Put proved by the same path) is model-checked "
+              "on a tree of height 3 with a free hash (membership proofs climb to the root, insert leaves the path unchanged, the root "
+              "binds every value, writing the default is removal, insertions commute, the level-by-level root equals the recursive "
+              "one; a colliding hash must break them); its sessions (and sessions on populated maps) run through the in-circuit "
+              "MapGadget and the off-circuit MapMt with roots, keys, values and results exposed, honest and tampered, and Map_Trace "
+              "recomputes every root with Poseidon at height 128."),
         design_ref="DESIGN.md 4/C04",
         note=("Toy field 12289 (generic code); single consistent fault per run; MockProver judges satisfiability; the "
-              "exhaustive tiny-field search covers the algebraic operations only (lookup-heavy ones exceed it); the map gadget is not covered."),
+              "exhaustive tiny-field search covers the algebraic operations only (lookup-heavy ones exceed it; sgn0 / to_le_bits over F_5 only); map soundness is up to collisions of Poseidon (the leaf index is 128 bits of a hash)."),
         technique="TLA+/TLC-computed definitions over a toy field + replay of the real generic gadgets with consistent tamper plans, validated by a trace spec",
     ),
     "C05": dict(
@@ -351,7 +359,10 @@ CHECKS = {
               "named values, constants in every surface form, Publish. TLC checks all programs of <= 2 instructions "
               "exhaustively and, in simulation, grows longer straight-line programs with witnesses from boundary menus "
               "and ill-formed variants (wrong arity, ill-typed operands and witnesses, unknown / duplicate names), "
-              "printing each finished program with the outcome the model derives. A stratified sample runs through the "
+              "printing each finished program with the outcome the model derives. A directed family - load one value; one or two unary "
+              "steps (conversions between bytes and every other type in both directions, negation, hashing, coordinates) on the value "
+              "bound last; publish - is enumerated exhaustively (6480 programs) because random simulation almost never builds such "
+              "chains; one program per signature is replayed (all of them on thorough). A stratified sample of the others runs through the "
               "real loader (from_instructions + JSON and bincode round trips), the off-circuit evaluator and the "
               "compiled circuit under MockProver, where the values the circuit itself binds to the instance column are "
               "extracted from its copy constraints: Zkir_Trace requires values never panics, success => circuit "
@@ -359,8 +370,8 @@ CHECKS = {
               "unsatisfiable), failure => circuit unsatisfiable even with its own exposed values, and the model's verdict."),
         design_ref="DESIGN.md 4/C18",
         note=("Points, scalars and digests are opaque in the model (verdict 'any': only agreement is required); "
-              "satisfiability judged by MockProver; one open known finding (ill-typed programs panic when the circuit "
-              "is built)."),
+              "satisfiability judged by MockProver; two open known findings (ill-typed programs panic when the circuit "
+              "is built; a JubjubScalar obtained from bytes and then published is exposed differently off- and in-circuit)."),
         technique="TLA+/TLC exhaustive + simulation-generated IR programs replayed off-circuit and in-circuit, validated by a trace spec",
     ),
     "C19": dict(
